@@ -218,6 +218,8 @@ func runScenario(m *M, path string) error {
 			m.Order()
 		case "Lengths":
 			m.Lengths()
+		case "Ciphersuite":
+			m.Ciphersuite()
 		default:
 			return fmt.Errorf("scenario: cannot re-execute op %q", op)
 		}
